@@ -142,6 +142,13 @@ func (t *Transformer) maybeRecursivelyMangle(mangler Mangler, state *transformMa
 			ft = ft.Elem()
 		}
 
+		// ... nor into slices and arrays of TextUnmarshaler types
+		// (e.g. []time.Time): recursing would rebuild the element type
+		// from its exported fields only.
+		if ft.Implements(textMReflectType) || reflect.PointerTo(ft).Implements(textMReflectType) {
+			continue
+		}
+
 		fieldTransformer := Transformer{
 			manglers: []Mangler{mangler},
 			mState:   nil,
